@@ -7,7 +7,8 @@
   * timeout (`timeoutFire s`, or a `react s` that notices the expiry): the clock reads exactly `begin + T`, an
     instant not reached before the last `tick` — and in the second case the jobs of the reacted `done` set ended
     with no `tick` since;
-  * cancelled (`cancelArrive s`): the cancellation of the task of `s` was requested with no `tick` since.
+  * cancelled (`cancelArrive s`): the cancellation of the task of `s` was requested — by the enclosing scheduler, or
+    for `s = 0` from outside (`extCancel`) — with no `tick` since.
 
   Proof scheme (`last_cause`): a state predicate that holds initially and in every quiet state (the clock advances
   only there) and is preserved by every event that is not a cause, fails only with no `tick` since the last cause.
@@ -284,14 +285,15 @@ theorem rx_nonempty (c : Cfg) (evs : List EvB) (st : StB) (h : acceptB c StB.ini
 /-! ### cancellation: delivered at the instant it was requested -/
 
 /-- the `CancelledError` is delivered into the run of `s` with no `tick` since the step that requested the
-    cancellation of its task (the step in which the enclosing scheduler left its own main loop) -/
+    cancellation of its task (the step in which the enclosing scheduler left its own main loop; for the top-level
+    scheduler `s = 0`: the `extCancel` of the outside world — `cancelsTask c 0 st .extCancel = true`) -/
 theorem cancel_no_latency (c : Cfg) (hwf : c.wf = true) (evs : List EvB) (s : Nat) (st0 st : StB)
     (h0 : acceptB c StB.init evs = some st0) (h1 : stepB c st0 (.cancelArrive s) = some st) :
     CausedAt c evs (cancelsTask c s) := by
   have hg : s < c.n ∧ c.isSched s = true ∧ st0.a.ph s = .running ∧ st0.a.creq s = true ∧ st0.carrived s = false := by
     simp only [stepB] at h1
     split at h1
-    · next hg => exact ⟨hg.2.1, hg.2.2.1, hg.2.2.2.1, hg.2.2.2.2.1, hg.2.2.2.2.2⟩
+    · next hg => exact hg
     · cases h1
   obtain ⟨hsn, hsch, hrun, hcr, hca⟩ := hg
   let P : StB → Prop := fun st => ¬ (st.a.ph s = .running ∧ st.a.creq s = true ∧ st.carrived s = false)
@@ -592,5 +594,22 @@ example : (acceptB (exCfg false false (some 3)) StB.init [.runBegin, .grant 1, .
     (acceptB (exCfg false false (some 3)) StB.init [.runBegin, .grant 1, .grant 2, .tick 4]).isNone = true ∧
     (acceptB (exCfg false false (some 3)) StB.init (exTmoEvs ++ [.tick 1])).isNone = true := by
   refine ⟨?_, ?_, ?_⟩ <;> decide
+
+/-- cancelled case, at the top: somebody outside cancels the task of `0` at instant 3 (`extCancel`); the delivery that
+    takes the run out of its loop and cancels job `2` comes with no `tick` after that request -/
+def exCanEvs : List EvB := [.runBegin, .grant 1, .grant 2, .tick 3, .extCancel]
+
+example : ∃ st0 st, acceptB (exCfg false false none) StB.init exCanEvs = some st0 ∧
+    stepB (exCfg false false none) st0 (.cancelArrive 0) = some st ∧ st.pcB 0 = .tidy .cancelled ∧
+    ExitCause (exCfg false false none) exCanEvs (.cancelArrive 0) 0 st0 .cancelled ∧
+    st0.a.creq 2 = false ∧ st.a.creq 2 = true :=
+  exApply _ (by decide) _ _ _ (by decide)
+
+/-- the split: the cause is the `extCancel`, the tick lies before it; time cannot pass before the delivery -/
+example : exCanEvs = [.runBegin, .grant 1, .grant 2, .tick 3] ++ .extCancel :: [] ∧
+    (acceptB (exCfg false false none) StB.init [.runBegin, .grant 1, .grant 2, .tick 3]).map
+      (fun sta => cancelsTask (exCfg false false none) 0 sta .extCancel) = some true ∧
+    (acceptB (exCfg false false none) StB.init (exCanEvs ++ [.tick 1])).isNone = true := by
+  refine ⟨rfl, ?_, ?_⟩ <;> decide
 
 end AJ.Proofs.LatC
